@@ -274,6 +274,7 @@ class Ctx:
                  "Definition cases : list (%s) := [" % case_type,
                  ";\n".join(sh_cases), "]."]
             v.append("Definition RES_bad := Eval vm_compute in (bad_cases (%s) cases)." % judge)
+            v.append("Open Scope nat_scope.")   # so that the nat pairs print without scope delimiters
             v.append("Print RES_bad.")
             if nontrivial:
                 v.append("Definition RES_nt := Eval vm_compute in (count_if (%s) cases)." % nontrivial)
@@ -289,7 +290,12 @@ class Ctx:
                 m = re.search(r"RES_bad\s*=\s*(\[.*?\])\s*:\s*list", out, re.S)
                 if not m:
                     return bad, nt, "cannot parse shard %d output:\n%s" % (k, out[-2000:])
-                for a, b in re.findall(r"\((\d+)\s*,\s*(\d+)\)", m.group(1)):
+                body = re.sub(r"%\w+", "", m.group(1))      # tolerate `0%nat` style printing
+                pairs = re.findall(r"\((\d+)\s*,\s*(\d+)\)", body)
+                residue = re.sub(r"\(\d+\s*,\s*\d+\)", "", body)
+                if re.sub(r"[\[\];\s]", "", residue):
+                    return bad, nt, "unreadable result list in shard %d: %s" % (k, m.group(1)[:300])
+                for a, b in pairs:
                     bad.append((k * shard + int(a), int(b)))
                 if nontrivial:
                     m = re.search(r"RES_nt\s*=\s*(\d+)", out)
